@@ -10,7 +10,9 @@ harness/src/ops_res.rs operation for operation.
     res <k> get <dirpath-hex> <name|->  |  dfind <dirpath-hex> <path-hex>
     res <k> find_resource <type> <name> [<lang>]
     grp_write <k> <group-name> [cursor]
+    grp_write_chunk <k> <group-name> [cursor] <n>       (sink accepting at most n bytes per call)
     res_raw <dirVA> <hex section> [<sub> args…]
+    res_rawat <a16> <dirVA> <hex section> [<sub> args…]     (section at an address that is a16 mod 16)
 
 names: `i:<id>`, `w:<utf-16 units, 4 hex digits each>`, `s:<utf-8 hex>`.  References are printed
 relative to the image buffer (`secOff` = where the section starts in it).
@@ -213,6 +215,19 @@ def grpWrite (c : Ctx) (n : Name) (cursor : Bool) : String :=
   | o => outErr o
 
 
+/-- `write` into a sink that accepts at most `k` bytes per call (`Group.writeChunked`): what the sink holds -/
+def grpWriteChunk (c : Ctx) (n : Name) (cursor : Bool) (k : Nat) : String :=
+  match groups c.r (if cursor then RT_GROUP_CURSOR else RT_GROUP_ICON) with
+  | .ok items =>
+    let oks := (items.take countCap).filterMap fun | .ok p => some p | .error _ => none
+    match oks.find? (fun p => p.1.eq n) with
+    | some (_, g) =>
+      match g.writeChunked c.r k with
+      | .ok st => if st.failed then "err io" else "ok " ++ hex st.received.toArray
+      | o => outErr o
+    | none => "none"
+  | o => outErr o
+
 /-! ### the specification's answers from the abstract tree (`tree=`)
 
     node  = F<code page>:<hex content | -> | D<named count>[entry;entry;…]
@@ -368,7 +383,7 @@ def specAnswer (t : Node) (a : List String) : String :=
   | ["icons"] => sGroups t RT_GROUP_ICON
   | ["cursors"] => sGroups t RT_GROUP_CURSOR
   | ["dump"] => "ok " ++ sDumpNode t
-  | ["fsck"] => if t.depth ≤ 32 then "ok" else "-"
+  | ["fsck"] => "ok"              -- "the consistency check succeeds on every well-formed tree"
   | ["fmt"] => "ok " ++ textS (asc "Resources/\n" ++ sDrawNode true 0 0 t)
   | ["find", p] => sTriple (t.find (pathOf p))
   | ["manifest"] => sBytes t.manifest
@@ -408,7 +423,26 @@ def specPart (c : Ctx) (all : List String) (a : List String) : String :=
         | ["icons"] => groupsAligned c.r RT_GROUP_ICON
         | ["cursors"] => groupsAligned c.r RT_GROUP_CURSOR
         | _ => true)
-      s!" ## hyp={if isTree && small then 1 else 0} istree={if isTree then 1 else 0} encodable={if encodable then 1 else 0}{enc} spec={specAnswer t a}"
+      -- `fsck`: the statement claims success for EVERY well-formed tree, so the hypothesis is `IsTree` alone; the two
+      -- limits of the implementation (Thm/C12.lean: C12_fsck_on_tree_exact, C12_fsck_rejects_shared / _deep) are named
+      -- in `limit=` so that known-findings.txt can tell them from any other failure
+      let isFsck := a == ["fsck"]
+      let limit :=
+        if !isFsck then "" else
+        match decide (t.depth > 32), decide (t.dirCount > c.r.sec.size / 16) with
+        | true, true => " limit=depth,budget"
+        | true, false => " limit=depth"
+        | false, true => " limit=budget"
+        | false, false => ""
+      -- lookups (C12_find_on_tree, C12_get_on_tree, C12_helpers_on_tree) need nothing but `IsTree`; the caps of the
+      -- dump and the limits of the tree printer (`small`) concern `dump` / `fmt` / `icons` / `cursors` only
+      let isLookup := match a with
+        | "find" :: _ | "get" :: _ | "dfind" :: _ | "find_resource" :: _ | ["manifest"] | ["version"] => true
+        | _ => false
+      let isDump := a == ["dump"]
+      let dumpOk := decide (t.entryCount ≤ countCap ∧ t.depth ≤ depthCap)       -- the caps of the dump on both sides
+      let hyp := if isFsck || isLookup then isTree else if isDump then isTree && dumpOk else isTree && small
+      s!" ## hyp={if hyp then 1 else 0} istree={if isTree then 1 else 0} encodable={if encodable then 1 else 0}{enc}{limit} spec={specAnswer t a}"
 
 /-! ### dispatch on the sub-command -/
 
@@ -447,6 +481,12 @@ def runModel (c : Ctx) (a : List String) : String :=
     match parseName n, rest with
     | some n, [] => grpWrite c n false
     | some n, [x] => grpWrite c n (x == "cursor")
+    | _, _ => "bad-op"
+  -- `grp_write_chunk <name> [cursor] <n>`: `write` into a sink that accepts at most `n ≥ 1` bytes per call
+  | "grp_write_chunk" :: n :: rest =>
+    match parseName n, rest with
+    | some n, [k] => grpWriteChunk c n false (num k)
+    | some n, ["cursor", k] => grpWriteChunk c n true (num k)
     | _, _ => "bad-op"
   | sub :: p :: rest =>
     if !(sub == "fmtdir" && rest.length == 0 || sub == "fsckdir" && rest.length == 0 || (sub == "get" || sub == "dfind") && rest.length == 1) then "bad-op" else
@@ -493,8 +533,14 @@ def dispatchResources : Handler := fun st fam a =>
   | "res", _ => some "bad-op"
   | "grp_write", k :: n :: rest => some (resOp st.img k ("grp_write" :: n :: rest))
   | "grp_write", _ => some "bad-op"
+  | "grp_write_chunk", k :: n :: rest => some (resOp st.img k ("grp_write_chunk" :: n :: rest))
+  | "grp_write_chunk", _ => some "bad-op"
   | "res_raw", va :: hx :: rest => some (Res.run ⟨⟨unhex hx, num va % 4294967296, 4⟩, 0⟩ rest)
   | "res_raw", _ => some "bad-op"
+  -- `res_rawat <a16> <dirVA> <hex> …`: `Resources::new` on a slice at an address that is `a16` mod 16 (the public
+  -- constructor takes any slice; only `Pe::resources` guarantees 4-alignment — C12_unaligned_section_is_ub_partial)
+  | "res_rawat", al :: va :: hx :: rest => some (Res.run ⟨⟨unhex hx, num va % 4294967296, num al % 16⟩, 0⟩ rest)
+  | "res_rawat", _ => some "bad-op"
   | _, _ => none
 
 end Pelite.Driver
